@@ -511,11 +511,21 @@ fn tagged_guard(src: usize) -> PatchGuard {
     }
 }
 
+static mut TAG_LAST_KIND: u8 = 0; // 1 = replacement, 2 = forced boolean
+static mut TAG_LAST_VALUE: bool = false;
+
 fn tagging_will_execute_guard(w: WhenCalled, _target: FuncPtrInternal) -> PatchGuard {
+    unsafe {
+        TAG_LAST_KIND = 1;
+    }
     tagged_guard(when_src(&w))
 }
 
 fn tagging_will_return_boolean_guard(w: WhenCalled, _value: bool) -> PatchGuard {
+    unsafe {
+        TAG_LAST_KIND = 2;
+        TAG_LAST_VALUE = _value;
+    }
     tagged_guard(when_src(&w))
 }
 
@@ -583,6 +593,34 @@ fn c02_order_sync_flavours() {
     inj.when_called(int_fp(t, "f")).will_execute((int_fp(0x2000, "f"), CallCountVerifier::Dummy));
     inj.when_called(int_fp(t, "fn()-> bool")).will_return_boolean(true);
     flavour_epilogue_order(inj, 4);
+}
+
+/// forced boolean, then another fake, then a forced boolean again on the same function (any two values,
+/// equal ones included): the third installation is made, and it is the one in effect
+#[kani::proof]
+#[kani::unwind(16)]
+#[kani::stub(crate::injector_core::internal::WhenCalled::will_execute_guard, tagging_will_execute_guard)]
+#[kani::stub(crate::injector_core::internal::WhenCalled::will_return_boolean_guard, tagging_will_return_boolean_guard)]
+#[kani::stub(crate::injector_core::linuxapi::__clear_cache, os::flush)]
+#[kani::stub(crate::verif_rt::event_hook, mon_event)]
+fn c02_order_bool_refake() {
+    let mut inj = InjectorPP::new();
+    let t = 0x1000usize;
+    let v1: bool = kani::any();
+    let v2: bool = kani::any();
+    let middle_bool: bool = kani::any();
+    inj.when_called(int_fp(t, "fn()-> bool")).will_return_boolean(v1);
+    if middle_bool {
+        inj.when_called(int_fp(t, "fn()-> bool")).will_return_boolean(!v1);
+    } else {
+        unsafe { inj.when_called_unchecked(int_fp(t, "")).will_execute_raw_unchecked(int_fp(0x2000, "")) };
+    }
+    inj.when_called(int_fp(t, "fn()-> bool")).will_return_boolean(v2);
+    unsafe {
+        assert!(REC_CALLS == 3 && TAG_LAST_KIND == 2 && TAG_LAST_VALUE == v2, "OBL:C02.latest.bool-refake: re-forcing a boolean after another fake on the same function is installed, with the value asked for (the most recent installation is the one in effect)");
+    }
+    kani::cover!(v1 == v2 && !middle_bool, "COVER:same-value-after-other-fake");
+    flavour_epilogue_order(inj, 3);
 }
 
 /// C02.order (modular): for the history length K the real drop glue of `InjectorPP` drops the guards
